@@ -7,7 +7,7 @@
 From Coq Require Import String ZArith QArith Qround List Bool.
 From PV Require Import Model.Sched Model.SchedExpr Proofs.SchedArith Proofs.SchedQ Proofs.SchedProofs Proofs.SchedStep Gen.SchedGen Gen.Sched_bridge.
 From Coq Require Import Reals.
-From PV Require Import Proofs.SchedReal.
+From PV Require Import Proofs.SchedReal Proofs.SchedSpecB.
 Import ListNotations.
 Local Open Scope Z_scope.
 
@@ -116,6 +116,20 @@ Proof.
   split; [exact bridge_line_n|exact bridge_line_at].
 Qed.
 Print Assumptions C01_source_formulas.
+
+(* Meaning of the executable specification the correspondence run evaluates on the tokens of the
+   implementation (Model/Sched.v spec_b): with zero tolerance it accepts an observation of a
+   const / line profile iff it is the stream of the theorems above (Left = count, finish =
+   duration, count tokens, token k at at_ p k). *)
+Theorem C01_spec_b_meaning : forall p, valid p -> is_rate p = true ->
+  (forall left xs fin, spec_b p 0 0 left xs fin = true ->
+     left = count p /\ fin = dur p /\ Z.of_nat (length xs) = count p /\
+     forall j x, nth_error xs j = Some x -> at_ p (Z.of_nat j) = Some x) /\
+  spec_b p 0 0 (count p) (model_tokens p) (dur p) = true.
+Proof.
+  intros p Hv Hr. split; [intros left xs fin; apply spec_b_sound; assumption|apply spec_b_complete; assumption].
+Qed.
+Print Assumptions C01_spec_b_meaning.
 
 (* Real-number side (Coq Reals): the closed form lineDoAt evaluates inverts the integral of
    the line rate, and the integer formula of the model (Z.sqrt + floor division) is exactly
